@@ -109,10 +109,42 @@ class C02(C01):
         "HappyModel.C01.finished_never_runs",
         "HappyModel.C01.yield_delay_schedules",
         "HappyModel.C01.ret_finishes",
+        "HappyModel.C01.one_pending_continuation",
+        "HappyModel.C01.one_pending_continuation_program",
+        "HappyModel.C01.pending_invariant_step",
+        "HappyModel.C01.handler_effect_ok",
+        "HappyModel.C01.future_resume_once",
+        "HappyModel.C01.park_on_resolved_resumes_at_once",
+        "HappyModel.C01.park_on_unresolved_waits",
+        "HappyModel.C01.anyof_construct",
+        "HappyModel.C01.anyof_first",
+        "HappyModel.C01.allof_construct",
+        "HappyModel.C01.allof_all",
+        "HappyModel.C01.anyof_first_nested",
+        "HappyModel.C01.allof_all_nested",
+        "HappyModel.C01.finish_once",
+        "HappyModel.C01.finishing_step_runs_hooks_once",
+        "HappyModel.C01.hooks_at_most_once",
+        "HappyModel.C01.hooks_at_most_once_from",
         "HappyModel.C01.delivered_sorted",
         "HappyModel.C01.at_most_once",
         "HappyModel.C01.pop_verdict",
     ]
+    partial_theorems = {
+        "HappyModel.C01.one_pending_continuation":
+            "the invariant is 'at most one pending resumption per process', not 'exactly one': the model (like the "
+            "harness) lets a second process park on a future that already has one and lets a slot be rebound, where "
+            "the code raises / keeps the old object, and the contgate variant drops continuations of crashed entities; "
+            "a displaced process then has no pending resumption. That each terminator creates exactly one (yield d: "
+            "yield_delay_schedules; yield f unresolved: park_on_unresolved_waits; yield f resolved: "
+            "park_on_resolved_resumes_at_once) and that resolve turns the park into exactly one continuation "
+            "(future_resume_once) are step-level theorems",
+        "HappyModel.C01.anyof_first_nested":
+            "nested any_of/all_of are proved for ranked callback graphs (every combinator tree) with fuel above the rank "
+            "(driver: depthFuel = 64), as statements about one resolve() call on a table of the described shape; that "
+            "the Act.anyOf/Act.allOf constructors establish the shape is proved for plain inputs only "
+            "(anyof_construct / allof_construct), and inputs already resolved at construction time are not covered",
+    }
     quick_cases = 1000
     thorough_cases = 50000
     rule = ("C01 programs (no crash actions) plus 1–3 waiter processes that park on plain futures or on any_of/all_of trees of depth ≤3 "
